@@ -32,19 +32,19 @@ func (g *gen) stmt(d int) {
 		compound = 1
 	}
 	w := []int{
-		9,             // 0 define
-		9,             // 1 assign
+		6,             // 0 define
+		7,             // 1 assign
 		4,             // 2 trace
 		3,             // 3 tuple assign
 		5,             // 4 effectful call
-		2,             // 5 guarded panic
+		1,             // 5 guarded panic
 		2,             // 6 map / builtin statement
 		2,             // 7 conditional return
 		8 * compound,  // 8 if
-		8 * compound,  // 9 loop
+		9 * compound,  // 9 loop
 		4 * compound,  // 10 switch
 		2 * compound,  // 11 type switch
-		10 * compound, // 12 template
+		20 * compound, // 12 template
 		1 * compound,  // 13 bare block with shadowing
 		2,             // 14 break/continue
 	}
